@@ -4,6 +4,7 @@ package uniprot
 
 // C20: Uniprot streaming delivers every entry once, in order, and terminates.
 //
+// verif:bound C20 date-attribute clause: the xs:date text unmarshaler of the entry attributes (created / modified) on '2000-05-30' with 0..1 symbolic XML white-space bytes (space, newline, tab, CR) on either side: accepted (a refused attribute would abort the entry and end the stream); time.Parse runs natively on every feasible value
 // verif:bound C20 documents given as event scripts of length 0..3 (quick) / 0..4 (thorough) over {entry, entry damaged inside, other start element, other token, syntax error, reader failing with io.ErrUnexpectedEOF (truncated compressed stream), bare '&' between elements}; channel capacities 0, 1, 100; two consumer shapes (entries first and errors afterwards - the documented usage - or both concurrently); schedules at synchronisation-point granularity: default, LIFO mirror and all deviating at <= 2 of the first 24 choice points
 // verif:bound C20 two-streams clause: two one- or two-event documents parsed one after the other in the same process
 // verif:assume C20 encoding/xml.Decoder is a stub driven by the event script: Token returns the scripted tokens, after the first syntax error every later Token/DecodeElement returns that error, end of script is io.EOF; DecodeElement delivers an opaque entry stamped with its ordinal. Natively the same script is laid out as a real Uniprot XML document and read by the real decoder (replay)
@@ -85,6 +86,18 @@ func Harness_C20_Streaming() {
 }
 
 // two streams parsed one after the other in the same process: nothing carries over
+// the date attributes of an entry: XML white space around an xs:date is collapsed, so a
+// wrapped (pretty-printed) attribute value is still a date
+func Harness_C20_DateAttribute() {
+	ws := " \n\t\r"
+	left, right := vBytes(vChoice(2), ws), vBytes(vChoice(2), ws)
+	var d xsdDate
+	var err error
+	panicked := vPanics(func() { err = d.UnmarshalText([]byte(left + "2000-05-30" + right)) })
+	vAssert(!panicked, "date-attribute-does-not-panic")
+	vAssert(err == nil, "date-attribute-padded-with-xml-white-space-is-accepted")
+}
+
 func Harness_C20_TwoStreams() {
 	ev := "EXFZA"
 	first := string(ev[vChoice(len(ev))])
